@@ -56,6 +56,11 @@ var timeName = regexp.MustCompile(`\b(now|localtime|strflocaltime|mktime|strptim
 // command's custom functions or the module loader.
 func Deterministic(src string) bool { return !timeName.MatchString(src) }
 
+var clockName = regexp.MustCompile(`\b(now|localtime|strflocaltime|localdate)\b`)
+
+// ClockFree reports whether a program reads neither the clock nor the local time zone.
+func ClockFree(src string) bool { return !clockName.MatchString(src) }
+
 var hugeLiteral = regexp.MustCompile(`[0-9]{7,}|[0-9]e[0-9]{1,}|E[0-9]|infinite`)
 
 // Tame reports whether a program avoids literals that make single natives allocate or loop for
